@@ -579,7 +579,8 @@ fn reference(rule: Rule, t: &Ty, path: &str, top: bool) -> Option<(u64, u64, Vec
             let (es, ea, ef, self_pad, inner_pad) = reference(rule, e, "", false)?;
             let stride = up(es, ea);
             let mut fields = Vec::new();
-            for k in 0..*n {
+            // (only the first 64 elements are listed: lengths go up to 2^32)
+            for k in 0..(*n).min(64) {
                 let base = k.checked_mul(stride)?;
                 if k < 64 {
                     fields.push((format!("{}[{}]", path, k), base));
@@ -717,7 +718,7 @@ enum Blamed<'a> {
     Unlocated,
 }
 
-const WEAK_CLASSES: &[&str] = &["site-sbarr", "site-sbmem", "empty-struct"];
+const WEAK_CLASSES: &[&str] = &["site-sbarr", "site-sbarr-typedef", "site-sbmem", "empty-struct"];
 
 /// The property's oracle on the real verdict. Returns the oracle string and a statistics class.
 fn judge(uses: &[Use], all: &[Ty], blamed: Blamed, real: &Real) -> (String, String) {
@@ -836,6 +837,8 @@ fn oracle(tys: &[Ty], real: &Real) -> (String, String) {
 //           <kind>.<wrap>@<type index>    a typed load / store
 //   global kinds: sb rwsb sbc sbtd sbreg (structured buffers, spelled differently)
 //                 sbarr rwsbarr sbarr2 sbarru sbbl (arrays of structured buffers; sbbl = [[rssl::bindless]])
+//                 sbtdarr (`typedef StructuredBuffer<S> A[2]; A g;`) sbarrtd (`… A g[3];`: an array of a typedef'd array)
+//                 sbarrtd2 (`… typedef const A B[2]; B g[3];`: two modifiers between three array layers)
 //                 sbmem (a structured buffer that is a member of a global struct) sbparam (a function parameter)
 //                 cb (ConstantBuffer<T>) cbuf (cbuffer member) gv gs st (plain / groupshared / static variable)
 //   load/store  : bload bload2 rwbload rwbload2 rwbstore rwbstoret baload rwbaload rwbastore rwbastoret
@@ -845,17 +848,19 @@ fn oracle(tys: &[Ty], real: &Real) -> (String, String) {
 //                 p (buffer is a function parameter) a (buffer is an element of a global array of buffers)
 //                 gi (initialiser of a static global) da (default argument of a function) ex (operand of sizeof in
 //                 main, no variable of the type anywhere); gi / da: plain loads only, ex: loads only
+//                 dt / dta (default argument of a function template that nobody instantiates: `Load<T>` / `Load<T[2]>`
+//                 of the template parameter; the site's type is declared but not used; plain loads only)
 // observe : ok | unknown@L | mismatch@L hlsl=SIZE/ALIGN metal=SIZE/ALIGN | error | panic:<message>
 //   L = G<site index> (located at that global) | T<type index> (located at that struct's definition) | ?
 // ------------------------------------------------------------------------------------------------
 pub const GLOBAL_KINDS: &[&str] = &[
-    "sb", "rwsb", "sbc", "sbtd", "sbreg", "sbarr", "rwsbarr", "sbarr2", "sbarru", "sbbl", "sbmem", "sbparam", "cb",
-    "cbuf", "gv", "gs", "st",
+    "sb", "rwsb", "sbc", "sbtd", "sbreg", "sbarr", "rwsbarr", "sbarr2", "sbarru", "sbbl", "sbtdarr", "sbarrtd", "sbarrtd2", "sbmem",
+    "sbparam", "cb", "cbuf", "gv", "gs", "st",
 ];
 pub const FN_KINDS: &[&str] = &[
     "bload", "bload2", "rwbload", "rwbload2", "rwbstore", "rwbstoret", "baload", "rwbaload", "rwbastore", "rwbastoret",
 ];
-pub const WRAPS: &[&str] = &["m", "u", "t", "t0", "me", "p", "a", "gi", "da", "ex"];
+pub const WRAPS: &[&str] = &["m", "u", "t", "t0", "me", "p", "a", "gi", "da", "ex", "dt", "dta"];
 
 #[derive(Clone, Debug)]
 pub struct Site {
@@ -915,7 +920,7 @@ pub fn parse_prog(f: &[&str]) -> Option<Prog> {
             None => (lhs, ""),
         };
         let mut good = if wrap.is_empty() { GLOBAL_KINDS.contains(&kind) } else { FN_KINDS.contains(&kind) && WRAPS.contains(&wrap) };
-        if (wrap == "gi" || wrap == "da") && !["bload", "rwbload", "baload", "rwbaload"].contains(&kind) {
+        if ["gi", "da", "dt", "dta"].contains(&wrap) && !["bload", "rwbload", "baload", "rwbaload"].contains(&kind) {
             good = false;
         }
         if wrap == "ex" && !["bload", "bload2", "rwbload", "rwbload2", "baload", "rwbaload"].contains(&kind) {
@@ -984,6 +989,11 @@ fn prog_source(p: &Prog) -> (String, ProgLines) {
             "sbarr2" => format!("StructuredBuffer<{}> g{}[2][3];", a, i),
             "sbarru" => format!("StructuredBuffer<{}> g{}[];", a, i),
             "sbbl" => format!("[[rssl::bindless]] [[rssl::bind_group(1)]] StructuredBuffer<{}> g{}[1024];", a, i),
+            "sbtdarr" => format!("typedef StructuredBuffer<{}> SBA{}[2]; SBA{} g{};", a, i, i, i),
+            "sbarrtd" => format!("typedef StructuredBuffer<{}> SBA{}[2]; SBA{} g{}[3];", a, i, i, i),
+            "sbarrtd2" => format!(
+                "typedef StructuredBuffer<{}> SBA{}[2]; typedef const SBA{} SBB{}[2]; SBB{} g{}[3];", a, i, i, i, i, i
+            ),
             "sbmem" => format!("struct H{} {{ StructuredBuffer<{}> p; }}; H{} g{};", i, a, i, i),
             "sbparam" => format!("void fparam{}(StructuredBuffer<{}> p) {{}}", i, a),
             "cb" => format!("ConstantBuffer<{}> g{};", a, i),
@@ -1053,6 +1063,12 @@ fn prog_source(p: &Prog) -> (String, ProgLines) {
             "da" => s.lines.push(format!(
                 "float fda{}(uint q = sizeof({}.Load<{}>(0))) {{ return 0; }}", i, var, targ(n)
             )),
+            "dt" => s.lines.push(format!(
+                "template<typename T> float fdt{}(uint q = sizeof({}.Load<T>(0))) {{ return 0; }}", i, var
+            )),
+            "dta" => s.lines.push(format!(
+                "template<typename T> float fdt{}(uint q = sizeof({}.Load<T[2]>(0))) {{ return 0; }}", i, var
+            )),
             _ => {}
         }
     }
@@ -1086,13 +1102,14 @@ fn property_site(site: &Site) -> Option<Option<&'static str>> {
     if site.wrap.is_empty() {
         match site.kind.as_str() {
             "sb" | "rwsb" | "sbc" | "sbtd" | "sbreg" => Some(None),
-            "sbarr" | "rwsbarr" | "sbarr2" | "sbarru" | "sbbl" => Some(Some("site-sbarr")),
+            "sbarr" | "rwsbarr" | "sbarr2" | "sbarru" | "sbbl" | "sbtdarr" => Some(Some("site-sbarr")),
+            "sbarrtd" | "sbarrtd2" => Some(Some("site-sbarr-typedef")),
             "sbmem" => Some(Some("site-sbmem")),
             // a parameter type is not a buffer: the buffer is whatever global is passed. constant buffers, cbuffer
             // members and plain variables are not named by the property
             _ => None,
         }
-    } else if site.wrap == "t0" {
+    } else if ["t0", "dt", "dta"].contains(&site.wrap.as_str()) {
         None // the template is never instantiated: no load or store of the type exists
     } else {
         Some(None)
@@ -1464,7 +1481,7 @@ fn all_sites() -> Vec<(String, String)> {
         for w in WRAPS {
             let plain_load = ["bload", "rwbload", "baload", "rwbaload"].contains(k);
             let load = plain_load || ["bload2", "rwbload2"].contains(k);
-            if ((*w == "gi" || *w == "da") && !plain_load) || (*w == "ex" && !load) {
+            if (["gi", "da", "dt", "dta"].contains(w) && !plain_load) || (*w == "ex" && !load) {
                 continue;
             }
             v.push((k.to_string(), w.to_string()));
@@ -1534,7 +1551,7 @@ fn agreeing_struct(rng: &mut Rng) -> Ty {
             1 => wide_struct(rng, 2, 4, 10),
             _ => random_tight_struct(rng),
         };
-        if !contains_empty_struct(&t) && agrees(&t) == Some(true) {
+        if agrees(&t) == Some(true) {
             return t;
         }
     }
